@@ -6,6 +6,16 @@ BASELINE = ("cd /repo && cargo nextest run --workspace --no-fail-fast --tool-con
             "--profile pb --test-threads 8 --offline")
 TECH = "contract-based deductive verification: Verus (Z3) on functions of /repo extracted mechanically on every run"
 CLAIMED = {
+ "C14": dict(
+   text=("Verus discharges, on the real text of BufferedBody::_extract_with_limit and ::extract (generic over every body, for every "
+         "chunking, every limit and every Content-Length header, unbounded), that Ok is exactly the client's bytes and at most the limit, "
+         "that a body over the limit is never accepted, that a size error is reported only when the body or the declared length exceeds "
+         "the limit, and that BodySizeLimit::default() is Enabled(2 MB). Modular proof against an assumed contract of "
+         "http_body_util::Limited + collect. Thorough replays native tests (bodies chunked 1/3/10/64 bytes, lying headers)."),
+   note=("Assumed (trusted_base): the contract of http_body_util::Limited/collect, http header accessors and str::parse as "
+         "uninterpreted functions, ubyte's usize/ByteUnit comparison and megabytes(). JSON/form extractors inherit the bound by typing "
+         "(they take &BufferedBody). async erased (N1)."),
+   design="§3/C14"),
  "C13": dict(
    text=("For InMemorySessionStore, Verus discharges on the real text of every trait method (create, update, update_ttl, load, delete, "
          "change_id, delete_expired) and of the helpers get_mut_if_fresh/_delete/is_stale a postcondition over the WHOLE map: load never "
@@ -53,7 +63,6 @@ NA = {
  "C08": "rule checks walk ComponentDb/ComputationDb built from rustdoc JSON; needs whole-repository invariants (DESIGN §3/C08)",
  "C09": "whole-process totality/termination/panic-freedom over 26 kLoC; Verus rejects the loops' text, Kani proves no termination (DESIGN §3/C09)",
  "C10": "not yet built in this tree: planned tier-2 partial claim (idempotence and --check clauses) — see DESIGN §3/C10",
- "C14": "not yet built in this tree: planned modular claim — see DESIGN §3/C14",
  "C15": "decoding lives in serde/percent-encoding/serde_html_form; pavex part is macro-generated serde glue generic over every Deserialize (DESIGN §3/C15)",
  "C16": "concurrency + liveness over threads/tokio/sockets; neither verifier supports it on this code (DESIGN §3/C16)",
  "C17": "measured: Verus rejects the recursive Type algebra's text (iterator adapters, let-chains, derived recursive eq), Kani does not converge on one concrete shape pair (DESIGN §3/C17)",
